@@ -222,6 +222,95 @@ pub fn tokenize_case(rng: &mut Rng, out: &mut Out) {
     out.count("tokenize_cases", 1);
 }
 
+
+/// a position where only token references are possible, written as an alternative of several
+/// references with pairwise disjoint denotations: exactly their union is allowed — under a canonical
+/// tokenizer too, where the engine forces bytes (and the marker byte) ahead of the mask
+pub fn alt_refs_case(rng: &mut Rng, out: &mut Out) {
+    let (ws, eos, specials) = special_vocab(rng);
+    let v = ws.len() as u32;
+    let canonical = rng.chance(2, 3);
+    let env = make_env(&ws, eos, canonical);
+    // candidate references with their denotations
+    let mut cands: Vec<(String, Vec<u32>)> = vec![];
+    for (name, id) in [("<|tool|>", specials[0]), ("<|user|>", specials[1]), ("<think>", specials[2])] {
+        cands.push(if rng.chance(1, 2) { (name.to_string(), vec![id]) } else { (format!("<[{id}]>"), vec![id]) });
+    }
+    let o = 256 + rng.below(10) as u32;
+    cands.push((format!("<[{o}]>"), vec![o]));
+    let a = 270 + rng.below(4) as u32;
+    let b = (a + 1 + rng.below(3) as u32).min(specials[0] - 1);
+    if a < b {
+        cands.push((format!("<[{a}-{b}]>"), (a..=b).collect()));
+    }
+    // a random subset in a random order
+    let n = rng.range(2, cands.len().min(4));
+    let mut chosen: Vec<(String, Vec<u32>)> = vec![];
+    while chosen.len() < n {
+        let c = rng.pick(&cands).clone();
+        if !chosen.iter().any(|x| x.0 == c.0 || x.1.iter().any(|t| c.1.contains(t))) {
+            chosen.push(c);
+        }
+    }
+    let text = *rng.pick(&["ab", "cd", "a", "x<|"]);
+    let tail = if rng.chance(2, 3) { " \"!\"" } else { "" };
+    let mut lit = String::new();
+    Rx::Lit(text.to_string()).to_lark_term(&mut lit);
+    let alts: Vec<String> = chosen.iter().map(|c| c.0.clone()).collect();
+    let lark = match rng.below(3) {
+        0 => format!("start: {lit} ( {} ){tail}\n", alts.join(" | ")),
+        1 => format!("start: {lit} r{tail}\nr: {}\n", alts.join(" | ")),
+        _ => format!("start: {}\n", alts.iter().map(|a| format!("{lit} {a}{tail}")).collect::<Vec<_>>().join(" | ")),
+    };
+    let Ok(mut m) = new_matcher(&env, &lark, &[]) else {
+        out.count("grammar_rejected", 1);
+        return;
+    };
+    let toks = env.tokenize_bytes(text.as_bytes());
+    for &t in &toks {
+        if m.consume_token(t).is_err() {
+            out.violation(&format!("the tokens {toks:?} of the text {text:?} were rejected"), lark.clone());
+            return;
+        }
+    }
+    let mut want: Vec<u32> = chosen.iter().flat_map(|c| c.1.clone()).collect();
+    want.sort();
+    let ff = m.compute_ff_tokens();
+    if !ff.is_empty() {
+        out.violation(&format!("tokens {ff:?} are forced where the grammar offers the choice {want:?} (canonical = {canonical})"), lark.clone());
+    }
+    let ml = match m.compute_mask() {
+        Ok(mask) => mask_list(&mask),
+        Err(e) => {
+            out.violation(&format!("no mask at the position of the token references: {}", e.to_string().lines().next().unwrap_or("")), lark.clone());
+            return;
+        }
+    };
+    if ml != want {
+        out.violation(&format!("alternative of token references {alts:?}: mask {ml:?} but the references denote {want:?} (canonical = {canonical})"), lark.clone());
+    }
+    for &t in &want {
+        let mut c = m.deep_clone();
+        if c.consume_token(t).is_err() {
+            out.violation(&format!("token {t} denoted by one of {alts:?} was rejected (canonical = {canonical})"), lark.clone());
+            continue;
+        }
+        if !tail.is_empty() {
+            let ok = !c.is_accepting().unwrap_or(true) && feed_text(&mut c, b"!");
+            if !ok || !c.is_accepting().unwrap_or(false) {
+                out.violation(&format!("after token {t} the rest of the rule is not as written (canonical = {canonical})"), lark.clone());
+            }
+        } else if !c.is_accepting().unwrap_or(false) {
+            out.violation(&format!("after token {t} the grammar is complete but the engine is not accepting (canonical = {canonical})"), lark.clone());
+        }
+    }
+    let _ = v;
+    out.count("alt_ref_cases", 1);
+    if canonical {
+        out.count("alt_ref_cases_canonical", 1);
+    }
+}
+
 /// canonical tokenizer (forced bytes, token healing): forced text followed by a choice between more
 /// text and a token reference; every token the mask offers — special or not — must be committable,
 /// and special tokens are offered only at the position of the reference
@@ -397,5 +486,7 @@ pub fn run(rng: &mut Rng, out: &mut Out, tier: &str) {
         canon_case(&mut r, out);
         let mut r = rng.fork(0x7200_0000 + i as u64);
         complement_case(&mut r, out);
+        let mut r = rng.fork(0x7300_0000 + i as u64);
+        alt_refs_case(&mut r, out);
     }
 }
